@@ -1355,6 +1355,9 @@ fn alpha_c07_topups_caps(w: &mut World, s: &EngSt) -> Vec<Act> {
     acts.push(Act::VammCaps { by: "owner".into(), v: 0, oi_cap: Some(oi + 50 * w.d), holding_cap: None });
     acts.push(Act::VammCaps { by: "owner".into(), v: 0, oi_cap: Some(oi.max(1)), holding_cap: None });
     acts.push(Act::VammCaps { by: "owner".into(), v: 0, oi_cap: None, holding_cap: Some(w.d) });
+    // nor is the engine's pause switch
+    acts.push(Act::SetPause { by: "owner".into(), pause: true });
+    acts.push(Act::SetPause { by: "owner".into(), pause: false });
     acts
 }
 
@@ -1962,6 +1965,11 @@ fn alpha_c15_permissionless(w: &mut World, s: &EngSt) -> Vec<Act> {
     acts.push(Act::fund());
     acts.push(Act::liq("liq", "alice"));
     acts.push(Act::liq("liq", "bob"));
+    // the owner tightens / relaxes the limit between two trades of a block: the band in force is the configured one
+    let k = w.cfg.k();
+    for fl in [30_000u128, 50_000, 80_000] {
+        acts.push(Act::VammConfig { by: "owner".into(), v: 0, toll: None, spread: None, fluct: Some(fl * k), twap: None });
+    }
     acts
 }
 
